@@ -42,11 +42,17 @@ var seqFuncs = []seqFunc{
 	{"pkg/llrp", "Client.getSupportedVersion", "llrp_Client_getSupportedVersion"},
 	{"pkg/llrp", "Client.negotiate", "llrp_Client_negotiate"},
 	{"pkg/llrp", "Client.SendFor", "llrp_Client_SendFor"},
+	{"internal/retry", "ExpBackOff.RetryWithCtx", "retry_ExpBackOff_RetryWithCtx"},
+	{"internal/driver", "ipGenerator", "driver_ipGenerator"},
 }
 
 // receivers of these types live in the World: their fields are read with World → T operations and their methods are
 // call sites without a receiver argument
 var worldTypes = map[string]bool{"Client": true, "LLRPDevice": true, "Driver": true}
+
+// functions in which `x == nil` on a byte slice may be read as `len(x) == 0`: ipGenerator compares the result of
+// net.IP.To4(), which is nil or a 4-byte slice
+var nilAsEmpty = map[string]bool{"ipGenerator": true}
 
 // external functions that write into a slice argument: the operation returns the slice's new content as well
 var outParams = map[string][]int{"io.ReadFull": {1}, "io.ReadAtLeast": {1}}
@@ -72,6 +78,8 @@ type sq struct {
 	ops      []envOp
 	opIdx    map[string]bool
 	callName map[token.Pos]string
+	selName  map[token.Pos]int
+	loopDone map[string]string
 	counters map[string]int
 	tmp      int
 	names    map[types.Object]string
@@ -82,6 +90,24 @@ type sq struct {
 	usesW    bool
 	results  []types.Type
 	body     *ast.BlockStmt
+	hasLoop  bool       // the function contains a for loop: it takes a fuel argument and returns an Option
+	inBranch bool       // translating a join-point branch (its end is `()`, never a loop continuation)
+	loops    []*loopCtx // enclosing loops, innermost last
+	aux      []string   // loop definitions, in dependency order
+	lean     string
+}
+
+// loopCtx: a `for` loop becomes a recursive definition on a fuel argument; its parameters are the variables in scope at
+// loop entry that the loop or the statements after it use; the statements after the loop are translated inside the
+// definition, where the loop ends (condition false, break)
+type loopCtx struct {
+	name   string
+	params []types.Object
+	post   ast.Stmt
+	inPost bool
+	exit   []ast.Stmt
+	defers []string
+	outer  []*loopCtx
 }
 
 // escaped: &x of a local x is only understood when x is not used afterwards (the pointer and the Lean variable would
@@ -114,7 +140,7 @@ func go2seq(repo string) {
 				pkgs[f.pkg] = p
 			}
 			fd := findFunc(p, f.name)
-			s := &sq{p: p, fn: f.name, typeSet: map[string]bool{}, opIdx: map[string]bool{}, callName: map[token.Pos]string{},
+			s := &sq{p: p, fn: f.name, typeSet: map[string]bool{}, opIdx: map[string]bool{}, callName: map[token.Pos]string{}, selName: map[token.Pos]int{}, loopDone: map[string]string{},
 				counters: map[string]int{}, names: map[types.Object]string{}, used: map[string]bool{}}
 			s.function(fd, f.lean, &b)
 		}); e != "" {
@@ -360,10 +386,14 @@ func (s *sq) function(fd *ast.FuncDecl, lean string, out *strings.Builder) {
 		if es, ok := n.(*ast.ExprStmt); ok && s.isLogStmt(es) {
 			return false
 		}
+		if sl, ok := n.(*ast.SelectStmt); ok {
+			s.counters["select"]++
+			s.selName[sl.Pos()] = s.counters["select"]
+		}
 		if ce, ok := n.(*ast.CallExpr); ok {
 			if base, ok := s.calleeBase(ce); ok {
 				s.counters[base]++
-				s.callName[ce.Pos()] = fmt.Sprintf("%s_%d", base, s.counters[base])
+				s.callName[ce.Lparen] = fmt.Sprintf("%s_%d", base, s.counters[base])
 				s.usesW = true
 			}
 		}
@@ -389,7 +419,42 @@ func (s *sq) function(fd *ast.FuncDecl, lean string, out *strings.Builder) {
 		}
 		return true
 	})
+	ast.Inspect(fd.Body, func(n ast.Node) bool {
+		switch x := n.(type) {
+		case *ast.FuncLit:
+			return false
+		case *ast.ForStmt:
+			s.hasLoop = true
+		case *ast.RangeStmt:
+			s.bad(x, "range loop")
+		case *ast.SelectStmt, *ast.SendStmt:
+			s.usesW = true
+		case *ast.UnaryExpr:
+			if x.Op == token.ARROW {
+				s.usesW = true
+			}
+		case *ast.CallExpr:
+			if id, ok := x.Fun.(*ast.Ident); ok && (id.Name == "close" || id.Name == "delete") {
+				if _, ok := s.p.info.Uses[id].(*types.Builtin); ok {
+					s.usesW = true
+				}
+			}
+		case *ast.AssignStmt:
+			// p.f = v through a pointer-typed local is a World store
+			for _, l := range x.Lhs {
+				if se, ok := l.(*ast.SelectorExpr); ok {
+					if tv, ok := s.p.info.Types[se.X]; ok && tv.Type != nil {
+						if _, isPtr := tv.Type.Underlying().(*types.Pointer); isPtr {
+							s.usesW = true
+						}
+					}
+				}
+			}
+		}
+		return true
+	})
 	s.body = fd.Body
+	s.lean = lean
 	body := s.stmts(fd.Body.List, nil)
 	var rts []string
 	if s.usesW {
@@ -419,8 +484,17 @@ func (s *sq) function(fd *ast.FuncDecl, lean string, out *strings.Builder) {
 	if s.usesW {
 		ws = " (w : E.World)"
 	}
+	rt := strings.ReplaceAll(strings.Join(rts, " × "), "§", "E.")
+	if s.hasLoop {
+		// loops run on fuel: `none` = the fuel ran out before the function returned
+		ws = " (fuel : Nat)" + ws
+		rt = "Option (" + rt + ")"
+	}
+	for _, a := range s.aux {
+		fmt.Fprintf(out, "\n%s\n", strings.ReplaceAll(strings.ReplaceAll(a, "§RESULT", rt), "§", "E."))
+	}
 	fmt.Fprintf(out, "\n/-- %s (%s) -/\ndef %s (E : %s)%s %s : %s :=\n  %s\n\n", s.fn, s.p.pos(fd), lean, env, ws,
-		strings.ReplaceAll(strings.Join(params, " "), "§", "E."), strings.ReplaceAll(strings.Join(rts, " × "), "§", "E."),
+		strings.ReplaceAll(strings.Join(params, " "), "§", "E."), rt,
 		indent(strings.ReplaceAll(body, "§", "E.")))
 }
 
@@ -494,6 +568,10 @@ func (s *sq) calleeBase(ce *ast.CallExpr) (string, bool) {
 			return "call_" + s.anyName(o.Type(), ce), true // a function value held in a variable
 		}
 	case *ast.SelectorExpr:
+		switch types.ExprString(ce.Fun) {
+		case "binary.BigEndian.Uint32", "binary.BigEndian.Uint16":
+			return "", false
+		}
 		if id, ok := f.X.(*ast.Ident); ok {
 			if pn, ok := s.p.info.Uses[id].(*types.PkgName); ok {
 				q := pn.Imported().Name() + "." + f.Sel.Name
@@ -553,7 +631,7 @@ func (s *sq) localPath(e ast.Expr) bool {
 
 // call translates a general call; the bindings go to pre, the result variables are returned
 func (s *sq) call(ce *ast.CallExpr, pre *[]string) ([]string, []types.Type) {
-	name := s.callName[ce.Pos()]
+	name := s.callName[ce.Lparen]
 	if name == "" {
 		s.bad(ce, "call site not numbered")
 	}
@@ -701,7 +779,17 @@ func (s *sq) assignPath(e ast.Expr, v string, pre *[]string) string {
 		bt := s.p.info.Types[x.X].Type
 		if p, ok := bt.Underlying().(*types.Pointer); ok {
 			if id, ok2 := x.X.(*ast.Ident); !(ok2 && s.p.info.Uses[id] == s.valRcv) {
-				s.bad(e, "assignment through a pointer")
+				// p.f = v with p a pointer: the pointee lives in the World
+				if len(sel.Index()) != 1 {
+					s.bad(e, "assignment through a pointer to a nested field")
+				}
+				st, ok := p.Elem().Underlying().(*types.Struct)
+				if !ok {
+					s.bad(e, "assignment through a pointer to a non-struct")
+				}
+				f := st.Field(sel.Index()[0])
+				pv, _ := s.ex(x.X, pre)
+				return fmt.Sprintf("let w := %s w %s %s", s.op("store_"+s.anyName(p.Elem(), e)+"_"+f.Name(), "§World → "+s.lt(bt, e)+" → "+s.lt(f.Type(), e)+" → §World"), pv, v)
 			}
 			bt = p.Elem()
 		}
@@ -862,6 +950,23 @@ func (s *sq) ex(e ast.Expr, pre *[]string) (string, types.Type) {
 		case token.SUB:
 			v, t := s.ex(x.X, pre)
 			return "(" + wrapFn(s.ity(t, e)) + " (-" + v + "))", t
+		case token.XOR:
+			v, t := s.ex(x.X, pre)
+			it := s.ity(t, e)
+			sg := "false"
+			if it.signed {
+				sg = "true"
+			}
+			return fmt.Sprintf("(goNot %d %s %s)", it.bits, sg, v), t
+		case token.ARROW:
+			ch, ct := s.ex(x.X, pre)
+			c, ok := ct.Underlying().(*types.Chan)
+			if !ok {
+				s.bad(e, "receive from a non-channel")
+			}
+			n, okn := s.fresh("rv"), s.fresh("rok")
+			*pre = append(*pre, fmt.Sprintf("let (w, %s, %s) := %s w %s", n, okn, s.op("recv_"+s.anyName(ct, e), "§World → "+s.lt(ct, e)+" → §World × "+s.lt(c.Elem(), e)+" × Bool"), ch))
+			return n, c.Elem()
 		}
 		s.bad(e, "unsupported unary operator %s", x.Op)
 	case *ast.BinaryExpr:
@@ -871,7 +976,16 @@ func (s *sq) ex(e ast.Expr, pre *[]string) (string, types.Type) {
 			var pre2 []string
 			b, _ := s.ex(x.Y, &pre2)
 			if len(pre2) > 0 {
-				s.bad(e, "call on the right of %s", x.Op)
+				// short circuit: the calls on the right happen only when the left operand does not decide
+				n := s.fresh("sc")
+				skip := "false"
+				cond := a
+				if x.Op == token.LOR {
+					skip = "true"
+					cond = "(!" + a + ")"
+				}
+				*pre = append(*pre, fmt.Sprintf("let (w, %s) :=\n  if %s then\n    %s\n  else\n    (w, %s)", n, cond, indent(indent(lets(pre2, "(w, "+b+")"))), skip))
+				return n, tv.Type
 			}
 			op := "&&"
 			if x.Op == token.LOR {
@@ -895,8 +1009,12 @@ func (s *sq) ex(e ast.Expr, pre *[]string) (string, types.Type) {
 				case isErrorType(t):
 					r = "(" + v + " == GoErr.nil)"
 				case isByteSlice(t):
-					r = "(List.isEmpty " + v + ")" // a nil slice and an empty one are not distinguished; see the glue
-					s.bad(e, "nil comparison of a byte slice")
+					// a nil slice and an empty one are not distinguished: accepted only in the functions listed in
+					// nilAsEmpty, where the compared value is nil or non-empty by the callee's contract
+					r = "(List.isEmpty " + v + ")"
+					if !nilAsEmpty[s.fn] {
+						s.bad(e, "nil comparison of a byte slice")
+					}
 				default:
 					r = fmt.Sprintf("(%s %s)", s.op("isNil_"+s.anyName(t, e), s.lt(t, e)+" → Bool"), v)
 				}
@@ -924,6 +1042,22 @@ func (s *sq) ex(e ast.Expr, pre *[]string) (string, types.Type) {
 		b, _ := s.ex(x.Y, pre)
 		g := &g2l{p: s.p, fn: s.fn}
 		return g.binop(x.Op, a, b, s.ity(tv.Type, e), e), at
+	case *ast.SliceExpr:
+		// b[lo:hi] of a byte slice (Go panics when the bounds are out of range; that case is not represented)
+		v, t := s.ex(x.X, pre)
+		if !isByteSlice(t) || x.Slice3 {
+			s.bad(e, "unsupported slice expression")
+		}
+		lo := "0"
+		if x.Low != nil {
+			lo, _ = s.ex(x.Low, pre)
+		}
+		r := fmt.Sprintf("(List.drop (Int.toNat %s) %s)", lo, v)
+		if x.High != nil {
+			hi, _ := s.ex(x.High, pre)
+			r = fmt.Sprintf("(List.take (Int.toNat (%s - %s)) %s)", hi, lo, r)
+		}
+		return r, t
 	case *ast.CompositeLit:
 		t := tv.Type
 		if isByteSlice(t) {
@@ -995,6 +1129,14 @@ func (s *sq) ex(e ast.Expr, pre *[]string) (string, types.Type) {
 				}
 				s.bad(e, "unsupported builtin %s", id.Name)
 			}
+		}
+		switch types.ExprString(x.Fun) {
+		case "binary.BigEndian.Uint32":
+			v, _ := s.ex(x.Args[0], pre)
+			return "(be32At " + v + " 0)", tv.Type
+		case "binary.BigEndian.Uint16":
+			v, _ := s.ex(x.Args[0], pre)
+			return "(be16At " + v + " 0)", tv.Type
 		}
 		if se, ok := x.Fun.(*ast.SelectorExpr); ok {
 			if id, ok := se.X.(*ast.Ident); ok {
@@ -1112,7 +1254,7 @@ func hasReturnOrDefer(list []ast.Stmt) bool {
 	for _, st := range list {
 		ast.Inspect(st, func(n ast.Node) bool {
 			switch n.(type) {
-			case *ast.ReturnStmt, *ast.DeferStmt, *ast.BranchStmt:
+			case *ast.ReturnStmt, *ast.DeferStmt, *ast.BranchStmt, *ast.ForStmt, *ast.RangeStmt, *ast.SelectStmt:
 				found = true
 			case *ast.FuncLit:
 				return false
@@ -1127,8 +1269,11 @@ func fallsThrough(list []ast.Stmt) bool {
 	if len(list) == 0 {
 		return true
 	}
-	_, isRet := list[len(list)-1].(*ast.ReturnStmt)
-	return !isRet
+	switch list[len(list)-1].(type) {
+	case *ast.ReturnStmt, *ast.BranchStmt:
+		return false
+	}
+	return true
 }
 
 // assigned: Lean names of variables (declared outside the statements) that the statements assign, in sorted order
@@ -1206,7 +1351,7 @@ func (s *sq) hasCall(list []ast.Stmt) bool {
 	found := false
 	for _, st := range list {
 		ast.Inspect(st, func(n ast.Node) bool {
-			if ce, ok := n.(*ast.CallExpr); ok && s.callName[ce.Pos()] != "" {
+			if ce, ok := n.(*ast.CallExpr); ok && s.callName[ce.Lparen] != "" {
 				found = true
 			}
 			return true
@@ -1238,18 +1383,49 @@ func (s *sq) ret(vals []string, defers []string) string {
 	for i := len(defers) - 1; i >= 0; i-- {
 		pre = append(pre, defers[i])
 	}
+	if s.hasLoop && !s.inBranch {
+		return lets(pre, "some "+s.tuple(parts))
+	}
 	return lets(pre, s.tuple(parts))
 }
 
 func (s *sq) stmts(list []ast.Stmt, defers []string) string {
 	if len(list) == 0 {
-		if len(s.results) != 0 {
+		if len(s.loops) > 0 && !s.inBranch {
+			return s.continueLoop()
+		}
+		if len(s.results) != 0 && !s.inBranch {
 			return "MISSING_RETURN"
 		}
 		return s.ret(nil, defers)
 	}
 	st, rest := list[0], list[1:]
 	switch x := st.(type) {
+	case *ast.ForStmt:
+		return s.forLoop(x, rest, defers)
+	case *ast.BranchStmt:
+		if x.Label != nil || len(s.loops) == 0 {
+			s.bad(x, "unsupported branch statement")
+		}
+		switch x.Tok {
+		case token.CONTINUE:
+			return s.continueLoop()
+		case token.BREAK:
+			return s.exitLoop()
+		}
+		s.bad(x, "unsupported branch statement %s", x.Tok)
+	case *ast.SelectStmt:
+		return s.selectStmt(x, rest, defers)
+	case *ast.SendStmt:
+		var pre []string
+		ch, ct := s.ex(x.Chan, &pre)
+		v, vt := s.ex(x.Value, &pre)
+		c, ok := ct.Underlying().(*types.Chan)
+		if !ok {
+			s.bad(x, "send on a non-channel")
+		}
+		pre = append(pre, fmt.Sprintf("let w := %s w %s %s", s.op("send_"+s.anyName(ct, x), "§World → "+s.lt(ct, x)+" → "+s.lt(c.Elem(), x)+" → §World"), ch, s.coerce(v, vt, c.Elem(), x)))
+		return lets(pre, s.stmts(rest, defers))
 	case *ast.ReturnStmt:
 		if len(x.Results) != len(s.results) {
 			s.bad(x, "return with %d values", len(x.Results))
@@ -1276,11 +1452,34 @@ func (s *sq) stmts(list []ast.Stmt, defers []string) string {
 			return s.stmts(rest, defers)
 		}
 		var pre []string
+		if ue, ok := x.X.(*ast.UnaryExpr); ok && ue.Op == token.ARROW {
+			s.ex(ue, &pre)
+			return lets(pre, s.stmts(rest, defers))
+		}
 		ce, ok := x.X.(*ast.CallExpr)
 		if !ok {
 			s.bad(x, "expression statement that is not a call")
 		}
-		if s.callName[ce.Pos()] == "" {
+		if id, ok := ce.Fun.(*ast.Ident); ok {
+			if _, ok := s.p.info.Uses[id].(*types.Builtin); ok {
+				switch id.Name {
+				case "close":
+					ch, ct := s.ex(ce.Args[0], &pre)
+					pre = append(pre, fmt.Sprintf("let w := %s w %s", s.op("close_"+s.anyName(ct, x), "§World → "+s.lt(ct, x)+" → §World"), ch))
+					return lets(pre, s.stmts(rest, defers))
+				case "delete":
+					m, mt := s.ex(ce.Args[0], &pre)
+					k, kt := s.ex(ce.Args[1], &pre)
+					mp, ok := mt.Underlying().(*types.Map)
+					if !ok {
+						s.bad(x, "delete from a non-map")
+					}
+					pre = append(pre, fmt.Sprintf("let w := %s w %s %s", s.op("delete_"+s.anyName(mt, x), "§World → "+s.lt(mt, x)+" → "+s.lt(mp.Key(), x)+" → §World"), m, s.coerce(k, kt, mp.Key(), x)))
+					return lets(pre, s.stmts(rest, defers))
+				}
+			}
+		}
+		if s.callName[ce.Lparen] == "" {
 			s.bad(x, "unsupported call statement")
 		}
 		s.call(ce, &pre)
@@ -1289,12 +1488,12 @@ func (s *sq) stmts(list []ast.Stmt, defers []string) string {
 		// the function value and the arguments are evaluated now, the call happens when the function returns
 		var dpre []string
 		ce := x.Call
-		if s.callName[ce.Pos()] == "" {
+		if s.callName[ce.Lparen] == "" {
 			s.bad(x, "unsupported deferred call")
 		}
 		s.call(ce, &dpre)
 		k := len(dpre) - 1
-		for k >= 0 && !strings.Contains(dpre[k], " := E."+s.callName[ce.Pos()]+" w") {
+		for k >= 0 && !strings.Contains(dpre[k], " := E."+s.callName[ce.Lparen]+" w") {
 			k--
 		}
 		if k < 0 {
@@ -1481,7 +1680,10 @@ func (s *sq) branch(list []ast.Stmt, vars []string) string {
 	// reuse stmts with a continuation that yields the tuple: emulate by a sentinel result list
 	s.results = nil
 	s.usesW, s.rcvMut = false, false
+	saveIn := s.inBranch
+	s.inBranch = true
 	body := s.stmts(list, nil)
+	s.inBranch = saveIn
 	s.results, s.usesW, s.rcvMut = saveRes, saveW, saveMut
 	s.names, s.used = saved, savedUsed
 	// stmts ended with `()` (ret of nothing): replace that final unit by the tuple
@@ -1561,7 +1763,7 @@ func (s *sq) assign(x *ast.AssignStmt, pre *[]string) {
 		var ts []types.Type
 		switch r := x.Rhs[0].(type) {
 		case *ast.CallExpr:
-			if s.callName[r.Pos()] == "" {
+			if s.callName[r.Lparen] == "" {
 				s.bad(x, "multi-value from an unsupported call")
 			}
 			names, ts = s.call(r, pre)
@@ -1617,4 +1819,315 @@ func (s *sq) assign(x *ast.AssignStmt, pre *[]string) {
 		}
 		*pre = append(*pre, s.assignPath(l, vals[i], pre))
 	}
+}
+
+
+// ---------------------------------------------------------------- loops and select
+
+// varType: the Go type a Lean variable stands for (the value-like pointer receiver stands for its pointee)
+func (s *sq) varType(o types.Object) types.Type {
+	t := o.Type()
+	if o == s.valRcv {
+		if p, ok := t.(*types.Pointer); ok {
+			return p.Elem()
+		}
+	}
+	return t
+}
+
+func (s *sq) usedObjects(nodes []ast.Node) map[types.Object]bool {
+	set := map[types.Object]bool{}
+	for _, nd := range nodes {
+		if nd == nil {
+			continue
+		}
+		ast.Inspect(nd, func(n ast.Node) bool {
+			if id, ok := n.(*ast.Ident); ok {
+				if o := s.p.info.Uses[id]; o != nil {
+					set[o] = true
+				}
+			}
+			return true
+		})
+	}
+	return set
+}
+
+func (s *sq) forLoop(x *ast.ForStmt, rest []ast.Stmt, defers []string) string {
+	var pre []string
+	if x.Init != nil {
+		switch in := x.Init.(type) {
+		case *ast.AssignStmt:
+			s.assign(in, &pre)
+		default:
+			s.bad(x, "unsupported for-init %T", in)
+		}
+	}
+	ast.Inspect(x.Body, func(n ast.Node) bool {
+		if d, ok := n.(*ast.DeferStmt); ok {
+			s.bad(d, "defer inside a loop")
+		}
+		_, lit := n.(*ast.FuncLit)
+		return !lit
+	})
+	// parameters: variables in scope that the loop or what follows it uses (plus those of the enclosing loops)
+	nodes := []ast.Node{x}
+	for _, r := range rest {
+		nodes = append(nodes, r)
+	}
+	used := s.usedObjects(nodes)
+	for _, l := range s.loops {
+		for _, o := range l.params {
+			used[o] = true
+		}
+	}
+	if s.valRcv != nil && s.rcvMut {
+		used[s.valRcv] = true
+	}
+	var params []types.Object
+	for o := range s.names {
+		if used[o] && o != s.worldRcv {
+			params = append(params, o)
+		}
+	}
+	sort.Slice(params, func(i, j int) bool { return s.names[params[i]] < s.names[params[j]] })
+	ctx := &loopCtx{name: fmt.Sprintf("%s_loop%d", s.lean, len(s.aux)+len(s.loops)+1), params: params, post: x.Post, exit: rest, defers: defers}
+	// the same loop reached through a duplicated continuation (same variables, same deferred calls, same enclosing
+	// loops, same statements after it) is the same definition
+	key := fmt.Sprint(x.Pos(), "|", len(rest), "|", strings.Join(defers, ";"), "|")
+	if len(rest) > 0 {
+		key += fmt.Sprint(rest[0].Pos())
+	}
+	for _, o := range params {
+		key += "," + s.names[o]
+	}
+	for _, l := range s.loops {
+		key += "/" + l.name
+	}
+	if name, ok := s.loopDone[key]; ok {
+		ctx.name = name
+		return lets(pre, s.loopCall(ctx))
+	}
+	// the name must be unique also when an inner loop is emitted first
+	for taken := true; taken; {
+		taken = false
+		for _, a := range s.aux {
+			if strings.Contains(a, "def "+ctx.name+" ") {
+				ctx.name += "x"
+				taken = true
+			}
+		}
+		for _, l := range s.loops {
+			if l.name == ctx.name {
+				ctx.name += "x"
+				taken = true
+			}
+		}
+	}
+	saved, savedUsed := copyNames(s.names), copyUsed(s.used)
+	s.loops = append(s.loops, ctx)
+	var cpre []string
+	cond := "true"
+	if x.Cond != nil {
+		cond, _ = s.ex(x.Cond, &cpre)
+	}
+	body := s.stmts(x.Body.List, defers)
+	s.names, s.used = copyNames(saved), copyUsed(savedUsed)
+	exit := s.exitLoop()
+	s.loops = s.loops[:len(s.loops)-1]
+	s.names, s.used = saved, savedUsed
+	var sig []string
+	if s.usesW {
+		sig = append(sig, "(w : §World)")
+	}
+	for _, o := range params {
+		sig = append(sig, fmt.Sprintf("(%s : %s)", s.names[o], s.lt(s.varType(o), x)))
+	}
+	def := fmt.Sprintf("/-- the loop of %s at %s; `fuel` bounds the number of iterations -/\ndef %s (E : Env_%s) (fuel : Nat) %s : §RESULT :=\n  match fuel with\n  | 0 => none\n  | fuel + 1 =>\n    %s",
+		s.fn, s.p.pos(x), ctx.name, s.lean, strings.Join(sig, " "),
+		indent(indent(lets(cpre, fmt.Sprintf("if %s then\n  %s\nelse\n  %s", cond, indent(body), indent(exit))))))
+	s.aux = append(s.aux, def)
+	s.loopDone[key] = ctx.name
+	return lets(pre, s.loopCall(ctx))
+}
+
+func (s *sq) loopCall(ctx *loopCtx) string {
+	args := ""
+	if s.usesW {
+		args += " w"
+	}
+	for _, o := range ctx.params {
+		args += " " + s.names[o]
+	}
+	return ctx.name + " E fuel" + args
+}
+
+// continueLoop: the end of the loop body or a `continue`: the post statement, then the next iteration
+func (s *sq) continueLoop() string {
+	ctx := s.loops[len(s.loops)-1]
+	if ctx.post == nil || ctx.inPost {
+		return s.loopCall(ctx)
+	}
+	ctx.inPost = true
+	r := s.stmts([]ast.Stmt{ctx.post}, ctx.defers)
+	ctx.inPost = false
+	return r
+}
+
+// exitLoop: the loop ends (condition false, `break`): the statements after the loop, in the enclosing context
+func (s *sq) exitLoop() string {
+	ctx := s.loops[len(s.loops)-1]
+	saveLoops := s.loops
+	s.loops = s.loops[:len(s.loops)-1]
+	saved, savedUsed := copyNames(s.names), copyUsed(s.used)
+	savePost := ctx.inPost
+	ctx.inPost = false
+	r := s.stmts(ctx.exit, ctx.defers)
+	ctx.inPost = savePost
+	s.names, s.used = saved, savedUsed
+	s.loops = saveLoops
+	return r
+}
+
+// selectStmt: the channel operands (and send values) are evaluated in source order; the environment then says which
+// case proceeds (`select_k` returns its index; the default case, if any, has the index after the last case; an index
+// out of range counts as the last alternative); a receive that binds its value gets it from `selrecv_k_i`
+func (s *sq) selectStmt(x *ast.SelectStmt, rest []ast.Stmt, defers []string) string {
+	k := s.selName[x.Pos()]
+	var pre []string
+	type arm struct {
+		body []ast.Stmt
+		bind string
+	}
+	var arms []arm
+	var def []ast.Stmt
+	hasDef := false
+	var args, argTs []string
+	for _, c := range x.Body.List {
+		cc := c.(*ast.CommClause)
+		for _, b := range cc.Body {
+			ast.Inspect(b, func(n ast.Node) bool {
+				if br, ok := n.(*ast.BranchStmt); ok && br.Tok == token.BREAK && br.Label == nil {
+					s.bad(br, "break inside a select")
+				}
+				_, lit := n.(*ast.FuncLit)
+				return !lit
+			})
+		}
+		if cc.Comm == nil {
+			def, hasDef = cc.Body, true
+			continue
+		}
+		i := len(arms)
+		switch cm := cc.Comm.(type) {
+		case *ast.SendStmt:
+			ch, ct := s.ex(cm.Chan, &pre)
+			v, vt := s.ex(cm.Value, &pre)
+			c, ok := ct.Underlying().(*types.Chan)
+			if !ok {
+				s.bad(cm, "send on a non-channel")
+			}
+			args = append(args, ch, s.coerce(v, vt, c.Elem(), cm))
+			argTs = append(argTs, s.lt(ct, cm), s.lt(c.Elem(), cm))
+			arms = append(arms, arm{body: cc.Body})
+		case *ast.ExprStmt:
+			ue, ok := cm.X.(*ast.UnaryExpr)
+			if !ok || ue.Op != token.ARROW {
+				s.bad(cm, "unsupported select case")
+			}
+			ch, ct := s.ex(ue.X, &pre)
+			args = append(args, ch)
+			argTs = append(argTs, s.lt(ct, cm))
+			arms = append(arms, arm{body: cc.Body})
+		case *ast.AssignStmt:
+			if len(cm.Rhs) != 1 {
+				s.bad(cm, "unsupported select case")
+			}
+			ue, ok := cm.Rhs[0].(*ast.UnaryExpr)
+			if !ok || ue.Op != token.ARROW {
+				s.bad(cm, "unsupported select case")
+			}
+			ch, ct := s.ex(ue.X, &pre)
+			c, ok := ct.Underlying().(*types.Chan)
+			if !ok {
+				s.bad(cm, "receive from a non-channel")
+			}
+			args = append(args, ch)
+			argTs = append(argTs, s.lt(ct, cm))
+			rv, rok := s.fresh("rv"), s.fresh("rok")
+			opn := s.op(fmt.Sprintf("selrecv_%d_%d", k, i), "§World → "+s.lt(ct, cm)+" → §World × "+s.lt(c.Elem(), cm)+" × Bool")
+			var blines []string
+			blines = append(blines, fmt.Sprintf("let (w, %s, %s) := %s w %s", rv, rok, opn, ch))
+			for j, l := range cm.Lhs {
+				if id, ok := l.(*ast.Ident); ok && id.Name == "_" {
+					continue
+				}
+				val := rv
+				if j == 1 {
+					val = rok
+				}
+				blines = append(blines, "§ASSIGN§"+fmt.Sprint(j)+"§"+val)
+			}
+			a := arm{body: cc.Body, bind: strings.Join(blines, "\n")}
+			// the assignment lines are produced when the arm is translated (the names then in force)
+			arms = append(arms, a)
+			_ = cm
+		default:
+			s.bad(cc, "unsupported select case %T", cm)
+		}
+	}
+	_ = hasDef
+	sel := s.fresh("sel")
+	pre = append(pre, fmt.Sprintf("let (w, %s) := %s w%s", sel, s.op(fmt.Sprintf("select_%d", k), "§World → "+strings.Join(append(argTs, "§World × Int"), " → ")), prefixEach(args)))
+	type alt struct {
+		body []ast.Stmt
+		bind string
+		comm ast.Stmt
+	}
+	var alts []alt
+	ci := 0
+	for _, c := range x.Body.List {
+		cc := c.(*ast.CommClause)
+		if cc.Comm == nil {
+			continue
+		}
+		alts = append(alts, alt{arms[ci].body, arms[ci].bind, cc.Comm})
+		ci++
+	}
+	if hasDef {
+		alts = append(alts, alt{def, "", nil})
+	}
+	if len(alts) == 0 {
+		s.bad(x, "empty select")
+	}
+	var build func(i int) string
+	build = func(i int) string {
+		a := alts[i]
+		all := append([]ast.Stmt{}, a.body...)
+		if fallsThrough(a.body) {
+			all = append(all, rest...)
+		}
+		saved, savedUsed := copyNames(s.names), copyUsed(s.used)
+		var bpre []string
+		if a.bind != "" {
+			as := a.comm.(*ast.AssignStmt)
+			for _, line := range strings.Split(a.bind, "\n") {
+				if strings.HasPrefix(line, "§ASSIGN§") {
+					parts := strings.SplitN(strings.TrimPrefix(line, "§ASSIGN§"), "§", 2)
+					j := 0
+					fmt.Sscan(parts[0], &j)
+					bpre = append(bpre, s.assignPath(as.Lhs[j], parts[1], &bpre))
+				} else {
+					bpre = append(bpre, line)
+				}
+			}
+		}
+		t := lets(bpre, s.stmts(all, defers))
+		s.names, s.used = saved, savedUsed
+		if i == len(alts)-1 {
+			return t
+		}
+		return fmt.Sprintf("if decide (%s = %d) then\n  %s\nelse\n  %s", sel, i, indent(t), indent(build(i+1)))
+	}
+	return lets(pre, build(0))
 }
